@@ -274,4 +274,51 @@ def c18_sweep(seed=0, n=60):
     return {"violates": False, "cases": cases}
 
 
-CALLS = {"c18_evolve_colliding": c18_evolve_colliding, "c18_refused": c18_refused, "c18_rowid_column": c18_rowid_column, "c18_row": c18_row, "c18_names": c18_names, "c18_evolve": c18_evolve, "c18_batches": c18_batches, "c18_sweep": c18_sweep}
+
+def c18_close_busy(batch=1000, n=3, busy=1):
+    """the commit of close() fails `busy` times because another connection holds a read lock; the caller closes again after the lock is gone"""
+    import sqlite3
+    import tempfile
+
+    from flow.record import RecordDescriptor
+    from flow.record.adapter.sqlite import SqliteWriter
+
+    D = RecordDescriptor("c18/b", [("varint", "n"), ("string", "s")])
+    with tempfile.TemporaryDirectory() as td:
+        path = os.path.join(td, "c18.sqlite")
+        w = SqliteWriter(path, batch_size=batch)
+        for i in range(n):
+            w.write(D(n=i, s=f"r{i}"))
+        if w.con is not None:
+            w.con.execute("PRAGMA busy_timeout = 50")
+        errors = 0
+        for attempt in range(busy + 1):
+            blocker = cur = None
+            if attempt < busy:
+                # a reader inside an explicit transaction keeps its SHARED lock until it ends the transaction: the writer's COMMIT gets SQLITE_BUSY
+                blocker = sqlite3.connect(path, isolation_level=None)
+                blocker.execute("BEGIN")
+                cur = blocker.execute("SELECT count(*) FROM sqlite_master")
+                cur.fetchall()
+            try:
+                w.close()
+                ok = True
+            except sqlite3.OperationalError:
+                errors += 1
+                ok = False
+            finally:
+                if blocker is not None:
+                    blocker.execute("ROLLBACK")
+                    blocker.close()
+            if ok:
+                break
+        con = sqlite3.connect(path)
+        try:
+            rows = [tuple(r) for r in con.execute('SELECT n, s FROM "c18/b" ORDER BY rowid')]
+        except sqlite3.OperationalError as e:
+            rows = f"{e}"
+        con.close()
+    want = [(i, f"r{i}") for i in range(n)]
+    return {"violates": rows != want, "detail": f"after close() was retried the database holds {rows!r} ({errors} refused attempt(s)); written {want!r}", "refused_attempts": errors}
+
+CALLS = {"c18_close_busy": c18_close_busy, "c18_evolve_colliding": c18_evolve_colliding, "c18_refused": c18_refused, "c18_rowid_column": c18_rowid_column, "c18_row": c18_row, "c18_names": c18_names, "c18_evolve": c18_evolve, "c18_batches": c18_batches, "c18_sweep": c18_sweep}
